@@ -143,6 +143,7 @@ func buildIRs(s *smx.SM, l *Log, from, to int, base int64, next *uint64) ([]node
 // applyPart feeds requests [from,to) of the log grouped by part (whose calls must add up to to-from).
 func (x *runner) applyPart(s *smx.SM, l *Log, from, to int, part [][]Call, replay bool, syncer bool, base int64, next *uint64, out *runOut) {
 	irs, ids, wrs := buildIRs(s, l, from, to, base, next)
+	pf := l.pfKeys()
 	stop := make(chan struct{})
 	type seg struct{ lo, hi int } // event range of a request
 	pos := 0
@@ -255,6 +256,11 @@ func (x *runner) applyPart(s *smx.SM, l *Log, from, to int, part [][]Call, repla
 			}
 			v := wrs[i].GetResult()
 			out.replies[gi] = smx.CanonReply(v)
+			if b, ok := v.([]byte); ok && len(b) > 40 && len(l.Reqs[gi].Args) > 1 && pf[string(l.Reqs[gi].Args[1])] {
+				// GETSET (or any command replying the stored string) on a PFADDed key: the reply is the
+				// HyperLogLog library's map-ordered serialisation (see dump(), -hllprobe)
+				out.replies[gi] = "$hllbytes"
+			}
 			if e, ok := v.(error); ok && e != nil {
 				out.kinds[gi] = "E" + errHash(e)
 			} else {
@@ -342,7 +348,7 @@ func (x *runner) run(l *Log, v *Variant) (*runOut, error) {
 		x.applyPart(s, l, v.Cut, n, p2, true, v.Syncer, base, &next2, out)
 		out.part = append(append([][]Call{}, p1...), p2...)
 	}
-	out.dump = dump(s, l.universe())
+	out.dump = dump(s, l.universe(), l.pfKeys())
 	rawLines := s.RawDump()
 	h := sha1.New()
 	for _, ln := range rawLines {
@@ -427,7 +433,7 @@ func ttlClass(r string) string {
 
 // dump reads every type's view of every key through the production read handlers, and the table
 // key counters. TTL values are wall-clock relative: only "has a TTL" is kept.
-func dump(s *smx.SM, keys [][]byte) string {
+func dump(s *smx.SM, keys [][]byte, pf map[string]bool) string {
 	var p []string
 	tables := map[string]bool{}
 	var torder []string
@@ -445,8 +451,16 @@ func dump(s *smx.SM, keys [][]byte) string {
 				o = append(o, name+"="+val)
 			}
 		}
-		add("get", s.Read(bs("get"), k), "_")
-		add("ttl", ttlClass(s.Read(bs("ttl"), k)), "n")
+		// A key that was the target of a PFADD: its string views (GET bytes, the TTL and bit count derived
+		// from those bytes) are the HyperLogLog library's gob serialisation, which iterates a Go map
+		// (tmpSet) and so differs from run to run for equal sketches. That nondeterminism is demonstrated
+		// and reported by the dedicated probe (-hllprobe); here only PFCOUNT and the other views are kept.
+		if !pf[string(k)] {
+			add("get", s.Read(bs("get"), k), "_")
+			add("ttl", ttlClass(s.Read(bs("ttl"), k)), "n")
+		} else {
+			add("getnil", map[bool]string{true: "1", false: "0"}[s.Read(bs("get"), k) == "_"], "1")
+		}
 		add("hall", s.Read(bs("hgetall"), k), "*0")
 		add("hlen", s.Read(bs("hlen"), k), ":0")
 		add("httl", ttlClass(s.Read(bs("httl"), k)), "n")
@@ -459,7 +473,9 @@ func dump(s *smx.SM, keys [][]byte) string {
 		add("zr", s.Read(bs("zrange"), k, bs("0"), bs("-1"), bs("withscores")), "*0")
 		add("zcard", s.Read(bs("zcard"), k), ":0")
 		add("zttl", ttlClass(s.Read(bs("zttl"), k)), "n")
-		add("bitc", s.Read(bs("bitcount"), k), ":0")
+		if !pf[string(k)] {
+			add("bitc", s.Read(bs("bitcount"), k), ":0")
+		}
 		add("bttl", ttlClass(s.Read(bs("bttl"), k)), "n")
 		add("json", s.Read(bs("json.get"), k), "*1 $-")
 		add("pfc", s.Read(bs("pfcount"), k), ":0")
@@ -598,4 +614,30 @@ func (x *runner) writeSets(l *Log, engine string) ([]string, error) {
 		res = append(res, fmt.Sprintf("%s.w%d\tWS\t%s\t%s", l.ID, i, hx.H([]byte(name)), strings.Join(cs, ",")))
 	}
 	return res, nil
+}
+
+// hllProbe: the stored bytes of one HyperLogLog key after a flush, over several identical runs.
+func (x *runner) hllProbe(trials int) ([]string, error) {
+	l := &Log{ID: "H", Policy: "compact", Reqs: []Req{mkReq([]string{"pfadd", "t:p", "a", "b", "c", "d", "e"}, sec)}}
+	var vals []string
+	for i := 0; i < trials; i++ {
+		s, err := smx.Open("mem", l.Policy)
+		if err != nil {
+			return nil, err
+		}
+		out := &runOut{replies: make([]string, 1), kinds: make([]string, 1), own: make([]string, 1)}
+		next := uint64(1)
+		x.applyPart(s, l, 0, 1, partOne(1), false, false, x.baseOf(0), &next, out)
+		bi := s.Store.Backup(1, 2)
+		for try := 0; bi == nil && try < 200; try++ {
+			time.Sleep(2 * time.Millisecond)
+			bi = s.Store.Backup(1, 2)
+		}
+		if bi != nil {
+			bi.GetResult()
+		}
+		vals = append(vals, s.Read(bs("get"), []byte("t:p")))
+		s.Close()
+	}
+	return vals, nil
 }
